@@ -306,6 +306,60 @@ def _b3(prefix, tally, seed=0):
     return x.trace
 
 
+# -- B7: parallel linearization of two disciplines sharing one full cache ------------------------------
+def _b7(prefix, tally, seed=0):
+    from gemseo.caches.memory_full_cache import MemoryFullCache
+    from gemseo.core.parallel_execution.disc_parallel_linearization import DiscParallelLinearization
+
+    Lin = _lin_cls()
+    d0 = Lin("D", ["a", "b"], ["c"], 5 + seed)
+    d1 = Lin("D", ["a", "b"], ["c"], 5 + seed)
+    cache = MemoryFullCache(is_memory_shared=False)
+    cache.lock = sched.VLock("cache.lock")
+    cache.lock_hashes = sched.VLock("cache.lock_hashes")
+    d0.cache = cache
+    d1.cache = cache
+    xa = dict(X)
+    xb = {"a": np.array([0.25]), "b": np.array([3.0, 1.0])}
+    holder = {}
+
+    def body():
+        for d in (d0, d1):
+            d.add_differentiated_inputs()
+            d.add_differentiated_outputs()
+        p = DiscParallelLinearization([d0, d1], n_processes=2, use_threading=True)
+        holder["res"] = p.execute([xa, xb])
+
+    x = sched.run(body, prefix, _patches(), horizon=8000)
+    choices = [[t[0], t[1]] for t in x.trace]
+    case = {"part": "B7", "schedule": choices, "seed": seed}
+    bad = []
+    if x.failure is not None or x.error is not None:
+        bad.append(("shared-cache-failure", f"{x.failure!r} {x.error!r}"))
+    else:
+        res = holder["res"]
+        for k, r in enumerate(res):
+            if r is None or any(not np.array_equal(_dense(r["c"][i]), d0.M["c", i]) for i in ("a", "b")):
+                bad.append(("positional-result", f"Jacobian of task {k}: {r}"))
+        n_with_jac = 0
+        for e in cache.get_all_entries():
+            exp = d0.f(e.inputs)
+            if e.outputs and not np.array_equal(e.outputs["c"], exp["c"]):
+                bad.append(("shared-cache-entry-mismatch", f"entry inputs={dict(e.inputs)} outputs={dict(e.outputs)}"))
+            if e.jacobian:
+                n_with_jac += 1
+                if any(not np.array_equal(_dense(e.jacobian["c"][i]), d0.M["c", i]) for i in ("a", "b")):
+                    bad.append(("shared-cache-entry-jacobian-mismatch", f"entry inputs={dict(e.inputs)} jacobian={e.jacobian}"))
+        if len(cache) != 2 or n_with_jac != 2:
+            bad.append(("shared-cache-jacobian-not-stored-with-its-entry", f"{len(cache)} entries, {n_with_jac} with a Jacobian, for 2 inputs linearized in parallel (the sequential run stores one Jacobian per entry)"))
+    tally.case(("B7", tuple(map(tuple, choices))), nontrivial=any(c[1] for c in choices), outcome=f"B7:{'bad' if bad else 'ok'}")
+    tally.transitions += len(x.trace)
+    tally.traces += 1
+    for inv, msg in bad:
+        tally.violation({"invariant": inv, "part": "B7"}, case, f"{inv}: {msg}")
+    return x.trace
+
+
 # -- B4 / B5: forced completion orders on the process back-end -----------------------------------
 class _GatedFunction:
     """f(x) = [x0^2 + 2 x1, x0 x1]; the evaluation of point number k waits for its turn in the forced order."""
@@ -371,6 +425,9 @@ class _GatedObjective:
             raise ValueError("sample fails")
         return np.array([float(x[0] ** 2 + 3.0 * x[1])])
 
+    def jac(self, x):
+        return np.array([[2.0 * x[0], 3.0]])
+
 
 def _doe_problem(f):
     from gemseo.algos.design_space import DesignSpace
@@ -380,7 +437,7 @@ def _doe_problem(f):
     ds = DesignSpace()
     ds.add_variable("x", 2, lower_bound=-1.0, upper_bound=2.0)
     pb = OptimizationProblem(ds)
-    pb.objective = MDOFunction(f, "f")
+    pb.objective = MDOFunction(f, "f", jac=f.jac)
     return pb
 
 
@@ -396,18 +453,31 @@ def _b5(case, tally):
     def open_next(index, _):
         open(os.path.join(gate_dir, f"turn{order.index(index) + 1}"), "w").close()
 
+    eval_jac = bool(case.get("eval_jac"))
+    seen = {"seq": {}, "par": {}}
+
+    def recorder(which):
+        def record(index, data):  # what a user callback is given: (outputs, Jacobians), snapshot at call time
+            out, jac = data
+            seen[which].setdefault(index, []).append(({k: np.asarray(v).tolist() for k, v in out.items()}, {k: np.asarray(v).tolist() for k, v in (jac or {}).items()}))
+
+        return record
+
     err = io.StringIO()
     with contextlib.redirect_stderr(err):
         seq = _doe_problem(_GatedObjective(samples, [], fail, None))
-        DOELibraryFactory().execute(seq, algo_name="CustomDOE", samples=samples)
+        DOELibraryFactory().execute(seq, algo_name="CustomDOE", samples=samples, eval_jac=eval_jac, callbacks=[recorder("seq")])
         par = _doe_problem(_GatedObjective(samples, order, fail, gate_dir))
-        DOELibraryFactory().execute(par, algo_name="CustomDOE", samples=samples, n_processes=case["W"], callbacks=[open_next])
+        DOELibraryFactory().execute(par, algo_name="CustomDOE", samples=samples, n_processes=case["W"], eval_jac=eval_jac, callbacks=[recorder("par"), open_next])
 
     def content(pb):
         return [(tuple(np.asarray(k.unwrap()).tolist()), {n: np.asarray(v).tolist() for n, v in val.items()}) for k, val in pb.database.items()]
 
     tally.traces += 1
-    tally.case(("B5", tuple(order), tuple(sorted(fail)), case["W"]), nontrivial=order != sorted(order), outcome=f"B5:order={tuple(case['order'])}:fail={sorted(fail)}")
+    tally.case(("B5", tuple(order), tuple(sorted(fail)), case["W"], eval_jac), nontrivial=order != sorted(order), outcome=f"B5:order={tuple(case['order'])}:fail={sorted(fail)}:jac={eval_jac}")
+    if seen["seq"] != seen["par"]:
+        tally.violation({"invariant": "parallel-doe-callbacks-differ", "part": "B5", "fail": len(fail) > 0, "eval_jac": eval_jac}, {k: v for k, v in case.items() if k != "scratch"},
+                        f"forced completion order {case['order']} fail={sorted(fail)} eval_jac={eval_jac}: the user callback received\n  sequential={seen['seq']}\n  parallel  ={seen['par']}")
     cs, cp = content(seq), content(par)
     # a failing sample only loses its own entry (an empty or absent record are both accepted for it)
     strip = lambda c: [(k, v) for k, v in c if v]
@@ -427,6 +497,9 @@ def run(ctx):
     info = {}
     t = Tally()
     info["B1"] = sched.explore(lambda p, tt: _b1(p, tt, ctx.seed % 3), d, t, jobs=ctx.jobs)
+    tally.merge(t)
+    t = Tally()
+    info["B7"] = sched.explore(lambda p, tt: _b7(p, tt, ctx.seed % 3), d + 1, t, jobs=ctx.jobs)
     tally.merge(t)
     t = Tally()
     info["B6"] = sched.explore(lambda p, tt: _b6(p, tt, ctx.seed % 3), d, t, jobs=ctx.jobs)
@@ -451,6 +524,8 @@ def run(ctx):
             cases4.append({"part": "B4", "order": list(o), "W": w, "scratch": ctx.scratch})
             for fail in ([], [0], [1], [2]):
                 cases5.append({"part": "B5", "order": list(o), "fail": fail, "W": w, "scratch": ctx.scratch})
+            cases5.append({"part": "B5", "order": list(o), "fail": [], "W": w, "eval_jac": True, "scratch": ctx.scratch})
+            cases5.append({"part": "B5", "order": list(o), "fail": [1], "W": w, "eval_jac": True, "scratch": ctx.scratch})
         if ctx.thorough and w == 2:
             r4 = pool_model.run_tlc(4, w, scratch=ctx.scratch)
             for o in sorted({pool_model.completion_order(tr) for tr in r4["traces"]}):
@@ -468,6 +543,8 @@ def replay(case, ctx):
     part = case["part"]
     if part == "B1":
         _b1(case["schedule"], t, case.get("seed", 0))
+    elif part == "B7":
+        _b7(case["schedule"], t, case.get("seed", 0))
     elif part == "B6":
         _b6(case["schedule"], t, case.get("seed", 0))
     elif part == "B2":
